@@ -304,12 +304,12 @@ class Evaluator:
         start = 0 if d[2] is None else _as_int(self.val(d[2], {}, force=True), "slice start")
         stop = len(src) if d[3] is None else _as_int(self.val(d[3], {}, force=True), "slice stop")
         step = 1 if d[4] is None else _as_int(self.val(d[4], {}, force=True), "slice step")
-        if step <= 0:
+        if step == 0:
             raise MeaningError("bad-step", str(step))
         if start < 0:
             raise MeaningError("slice-out-of-range", "start %d" % start)
-        idxs = list(range(start, stop, step))
-        if stop > len(src) or (idxs and idxs[-1] >= len(src)):
+        idxs = list(range(start, stop, step))  # a negative step counts down, as in Python
+        if stop > len(src) or (idxs and (max(idxs[0], idxs[-1]) >= len(src) or min(idxs[0], idxs[-1]) < 0)):
             raise MeaningError("slice-out-of-range", "%s:%s:%s of %d" % (start, stop, step, len(src)))
         return [src[i] for i in idxs]
 
